@@ -560,7 +560,7 @@ let eNABLE_REQ_AGGREGATION =
 (** val fILL_VAR_REC_RETURNS_ERR : bool **)
 
 let fILL_VAR_REC_RETURNS_ERR =
-  false
+  true
 
 (** val flagops_ncmpi_enddef : (bool * z) list **)
 
